@@ -215,6 +215,22 @@ def seeds(signed=None):
     for ep in ["html_strict", "html_compat", "html_reply", "html_plain", "sanitize_html", "remove_html_reply_fallback"]:
         for h in htmls:
             add(ep, [h], 0, "html")
+    # mis-nested formatting / block elements (the parser's adoption agency and foster parenting), deliberately broken structure
+    broken = ["<b><p>one</b>two</p>", "<a href=x><div>x</a>y</div>", "<i><b>x</i>y</b>", "<table><b><tr><td>x</b></td></tr></table>",
+              "<p><b><i>x</p>y</i></b>", "<b><b><b><p>x</b></b></b>y</p>", "<table><tr><td><table><a>x</td></tr></table>y</a>",
+              "<select><b><option>x</b></select>", "<svg><p><b></svg>x</b></p>", "<mx-reply><b><blockquote>q</b></blockquote></mx-reply>r",
+              "<font color=red><p>x</font>y</p>", "<a><a><a>x</a></a></a>", "<li><ul><li></ul>", "<h1><h2>x</h1>y</h2>", "<template><b></template>x</b>"]
+    for ep in ["html_strict", "html_compat", "html_reply", "html_plain", "sanitize_html", "remove_html_reply_fallback"]:
+        for h in broken:
+            add(ep, [h], 0, "html")
+    # plain-text reply fallbacks and whole message contents as a client sanitises them
+    for b in ["> <@bob:example.org> hi\n> more\n\nhello", "> * <@bob:example.org> waves\n\nhello", "> <@user:notareal.hs> one\n> two", "> not a reply\nx",
+              "> <@a:b> x\n> \n> y\n\n", "plain"]:
+        add("plain_reply_fallback", [b])
+    for c in [MSG["content"], IMAGE["content"], {"msgtype": "m.emote", "body": "> <@a:b> q\n\nwaves", "format": "org.matrix.custom.html", "formatted_body": "<mx-reply>q</mx-reply><b><p>w</b>x</p>"},
+              {"msgtype": "m.notice", "body": "n"}]:
+        add("message_sanitize", [J(c), "yes"], 0, "json")
+        add("message_sanitize", [J(c), "no"], 0, "json")
     # endpoint messages: [name, method, uri, headers, body, path args]
     reqs = [
         ("sync", "GET", "/_matrix/client/v3/sync?filter=%7B%22room%22%3A%7B%7D%7D&since=s1&full_state=true&set_presence=offline&timeout=30000", "", "", ""),
@@ -596,6 +612,9 @@ def generate(seed, per_seed, thorough, signed=None):
     probes = []
 
     def push(ep, args, why, lst=None):
+        # a lone surrogate code point (from re-parsing a mutated "\\ud800" escape) cannot be written to the inputs file
+        if any(isinstance(x, str) and any(0xD800 <= ord(ch) <= 0xDFFF for ch in x) for x in args):
+            return
         rec = {"i": 0, "ep": ep, "a": args, "why": why}
         (inputs if lst is None else lst).append(rec)
 
